@@ -706,19 +706,41 @@ func (r *reporter) flush(mets []m3thrift.Metric) []m3thrift.Metric {
 func (r *reporter) convertTags(tags map[string]string) []m3thrift.MetricTag {
 	key := cache.TagMapKey(tags)
 
-	mtags, ok := r.tagCache.Get(key)
-	if !ok {
-		mtags = r.resourcePool.getMetricTagSlice()
-		for k, v := range tags {
-			mtags = append(mtags, m3thrift.MetricTag{
-				Name:  r.stringInterner.Intern(k),
-				Value: r.stringInterner.Intern(v),
-			})
-		}
-		mtags = r.tagCache.Set(key, mtags)
+	// n.b. The cache is keyed by a hash of the "key=value" strings only, so
+	//      different tag sets can share a key ({a: "b=c"} and {"a=b": "c"}):
+	//      a cached entry is only used if it really holds these tags.
+	cached, ok := r.tagCache.Get(key)
+	if ok && sameTags(cached, tags) {
+		return cached
 	}
 
+	mtags := r.resourcePool.getMetricTagSlice()
+	for k, v := range tags {
+		mtags = append(mtags, m3thrift.MetricTag{
+			Name:  r.stringInterner.Intern(k),
+			Value: r.stringInterner.Intern(v),
+		})
+	}
+	if ok {
+		// The key is taken by another tag set.
+		return mtags
+	}
+	if cached = r.tagCache.Set(key, mtags); sameTags(cached, tags) {
+		return cached
+	}
 	return mtags
+}
+
+func sameTags(mtags []m3thrift.MetricTag, tags map[string]string) bool {
+	if len(mtags) != len(tags) {
+		return false
+	}
+	for _, tag := range mtags {
+		if v, ok := tags[tag.Name]; !ok || v != tag.Value {
+			return false
+		}
+	}
+	return true
 }
 
 func (r *reporter) reportInternalMetrics() {
